@@ -70,6 +70,14 @@ def fftMidmul (k : Nat) (o : Ops α) (zlen : Nat) (p q : List α) : Option (List
     some ((List.range zlen).map fun t =>
       if q.length - 1 + t < size then cycCoefO o size p q (q.length - 1 + t) else o.zero)
 
+/-- `Poly::mul_fft(p, q)`: `_fft_longmul(p.r.mzp.as_ref().unwrap(), pq, p, q)` with `|pq| = |p| + |q| - 1` -/
+def mulFft (c : Ctx) (o : Ops α) (p q : List α) : Option (List α) :=
+  match c.mzp with
+  | none => none                                            -- unwrap()
+  | some k =>
+    if p.length + q.length = 0 then none                    -- p.c.len() + q.c.len() - 1
+    else fftLongmul k o (p.length + q.length - 1) p q
+
 /-- `_longmul(zr, z, p, q, tmp)` with `|z| = zlen`, `|tmp| = tmplen` (the Karatsuba path runs the
 buffer-exact model on zero-filled buffers: inside its domain the result does not depend on them) -/
 def longmul (c : Ctx) (o : Ops α) (zlen tmplen : Nat) (p q : List α) : Option (List α) :=
